@@ -53,10 +53,21 @@ func (c *constraints) Reserve(p peer.ID, a ma.Multiaddr, expiry time.Time) error
 
 	now := time.Now()
 	c.cleanup(now)
-	// To handle refreshes correctly, remove the existing reservation for the peer.
-	c.cleanupPeer(p)
 
-	if len(c.total) >= c.rc.MaxReservations {
+	// A refresh replaces the peer's existing reservation, so that one doesn't
+	// count against the limits. It is only removed once the new reservation
+	// is accepted: a refused refresh must leave the existing one accounted for.
+	others := func(rs []peerWithExpiry) int {
+		n := 0
+		for _, r := range rs {
+			if r.Peer != p {
+				n++
+			}
+		}
+		return n
+	}
+
+	if others(c.total) >= c.rc.MaxReservations {
 		return errTooManyReservations
 	}
 
@@ -65,31 +76,26 @@ func (c *constraints) Reserve(p peer.ID, a ma.Multiaddr, expiry time.Time) error
 		return errors.New("no IP address associated with peer")
 	}
 
-	ipReservations := c.ips[ip.String()]
-	if len(ipReservations) >= c.rc.MaxReservationsPerIP {
+	if others(c.ips[ip.String()]) >= c.rc.MaxReservationsPerIP {
 		return errTooManyReservationsForIP
 	}
 
-	var asnReservations []peerWithExpiry
 	var asn uint32
 	if ip.To4() == nil {
 		asn = asnutil.AsnForIPv6(ip)
 		if asn != 0 {
-			asnReservations = c.asns[asn]
-			if len(asnReservations) >= c.rc.MaxReservationsPerASN {
+			if others(c.asns[asn]) >= c.rc.MaxReservationsPerASN {
 				return errTooManyReservationsForASN
 			}
 		}
 	}
 
+	c.cleanupPeer(p)
+
 	c.total = append(c.total, peerWithExpiry{Expiry: expiry, Peer: p})
-
-	ipReservations = append(ipReservations, peerWithExpiry{Expiry: expiry, Peer: p})
-	c.ips[ip.String()] = ipReservations
-
+	c.ips[ip.String()] = append(c.ips[ip.String()], peerWithExpiry{Expiry: expiry, Peer: p})
 	if asn != 0 {
-		asnReservations = append(asnReservations, peerWithExpiry{Expiry: expiry, Peer: p})
-		c.asns[asn] = asnReservations
+		c.asns[asn] = append(c.asns[asn], peerWithExpiry{Expiry: expiry, Peer: p})
 	}
 	return nil
 }
